@@ -719,12 +719,17 @@ pub fn apply_defect(kind: &'static str, m: &mut Message, cx: &FaultCtx, t: &mut 
         }
         "bad-query-escape" => {
             let e = BAD_ESCAPES[t.below(BAD_ESCAPES.len())];
-            let mut v = if t.chance(2) {
-                b"zz=".to_vec()
-            } else {
-                b"".to_vec()
+            // the malformed escape may come after well-formed characters of the same element
+            let mut v = match t.below(4) {
+                0 => b"zz=".to_vec(),
+                1 => b"zz=abc".to_vec(),
+                2 => b"abc".to_vec(),
+                _ => b"".to_vec(),
             };
             v.extend(e);
+            if t.chance(3) {
+                v.extend(b"=1");
+            }
             m.quirks.query_suffix = Some(v);
             Rule::Query
         }
